@@ -212,6 +212,36 @@ def run(ctx):
             Q, _ = np.linalg.qr(A)
             P = Q[:, :r] @ Q[:, :r].conj().T if r else np.zeros((V, V), dtype=complex)
             big.append((f"random(V={V},rank={r})", l, P))
+    # projectors with the same density 1/2 on every site whose real part is not I/2: P = (1 - [[0, W], [W^+, 0]]) / 2 with W real orthogonal or complex
+    # unitary (half-filled bipartite hopping models: a uniform diagonal says nothing about the off-diagonal real part)
+    for V in ([8, 14, 30] if quick else [8, 12, 20, 30, 44]):
+        h_ = V // 2
+        for kind in ("real", "complex"):
+            A = rng.normal(size=(h_, h_)) + (1j * rng.normal(size=(h_, h_)) if kind == "complex" else 0)
+            W, _ = np.linalg.qr(A)
+            S = np.block([[np.zeros((h_, h_)), W], [W.conj().T, np.zeros((h_, h_))]])
+            big.append((f"chiral-{kind}(V={V})", grid_lattice(rng, V), (np.eye(V) - S).astype(complex) / 2))
+    # the half-filled Haldane model on the periodic honeycomb lattice (real nearest-neighbour hopping, complex second-neighbour hopping with the sign of the
+    # turn, no mass term): a Chern insulator whose projector has density exactly 1/2 on every site, complex entries and a real part that is not I/2
+    for n_ in ((3, 5) if quick else (3, 4, 5, 6)):
+        lh = eg.honeycomb_lattice(n_)
+        Vh = lh.n_vertices
+        Hh = np.zeros((Vh, Vh), dtype=complex)
+        out_ = [[] for _ in range(Vh)]
+        for (i_, j_), d_ in zip(lh.edges.indices, lh.edges.vectors):
+            Hh[i_, j_] += 1.0; Hh[j_, i_] += 1.0
+            out_[int(i_)].append((int(j_), d_)); out_[int(j_)].append((int(i_), -d_))
+        for i_ in range(Vh):
+            for j_, d1 in out_[i_]:
+                for k_, d2 in out_[j_]:
+                    if k_ == i_ and np.allclose(d1 + d2, 0):
+                        continue
+                    Hh[i_, k_] += 0.3 * np.exp(1j * np.sign(d1[0] * d2[1] - d1[1] * d2[0]) * np.pi / 2)
+        eh, vh = np.linalg.eigh(Hh)
+        occ_ = vh[:, : Vh // 2]
+        if eh[Vh // 2] - eh[Vh // 2 - 1] > 1e-6:
+            big.append((f"haldane(honeycomb {n_})", lh, occ_ @ occ_.conj().T))
+            ctx.count("haldane_projectors")
     for lname, l in [("honey3", eg.honeycomb_lattice(3)), ("vor12", zoo.voronoi(rng, 12)), ("vor20", zoo.voronoi(rng, 20))]:
         u = (1 - 2 * rng.integers(0, 2, size=l.n_edges)).astype(np.int8)
         J = rng.uniform(0.5, 1.5, size=3)
